@@ -28,7 +28,8 @@ Inductive op :=
 | OSync (get_ok save_ok : bool)    (* syncDeletedPods *)
 | OBind (u : Z) | OForget (u : Z)  (* the cluster IPAM binds / releases an address of uid u *)
 | OObjDeleting                     (* the NodeRuntime object gets a deletion timestamp (a finalizer holds it) *)
-| OObjGone.                        (* the object is removed *)
+| OObjGone                         (* the object is removed *)
+| OIfStatus (k : Z).               (* the Node record shows another status for the interface: of no concern to the reports *)
 
 Definition find_ent (u : Z) (l : list ent) : option ent := List.find (fun e => e_uid e =? u) l.
 Definition stamp_deleted (u : Z) (l : list ent) : list ent :=
@@ -63,6 +64,7 @@ Definition step (s : st) (o : op) : st :=
   | OForget u => mkSt (pend s) (rt s) (deleting s) (remz u (ipam s)) (dels s)
   | OObjDeleting => match rt s with Some _ => mkSt (pend s) (rt s) true (ipam s) (dels s) | None => s end
   | OObjGone => mkSt (pend s) None false (ipam s) (dels s)
+  | OIfStatus _ => s
   end.
 Definition init : st := mkSt [] None false [] [].
 Definition run (s : st) (os : list op) : st := fold_left step os s.
